@@ -1222,7 +1222,7 @@ fn run_job(j: &Job) -> Tally {
 }
 
 pub fn run(ctx: &Ctx) -> Report {
-    let mut rep = Report::new("exploration");
+    let mut rep = Report::new("model_checking");
     let q = ctx.quick();
     let mut jobs: Vec<Job> = vec![];
     // A
